@@ -427,6 +427,192 @@ theorem streamFill_safe (bs : UInt32) (s : StreamSt) (w : UInt32) (l : BlkLoad) 
         simp [Access.inBounds]
         omega
 
+/-! ## sqfs_data_reader_read -/
+
+theorem dataReadSkip_spec (bs : UInt64) : ∀ (rem i : Nat) (offset : UInt64),
+    (dataReadSkip bs rem i offset).1 ≤ i + rem ∧ i ≤ (dataReadSkip bs rem i offset).1 ∧
+    ((dataReadSkip bs rem i offset).2.toNat ≤ bs.toNat ∨ (dataReadSkip bs rem i offset).1 = i + rem) ∧
+    (dataReadSkip bs rem i offset).2.toNat ≤ offset.toNat := by
+  intro rem
+  induction rem with
+  | zero => intro i o; simp [dataReadSkip]
+  | succ rem ih =>
+    intro i o
+    unfold dataReadSkip
+    split
+    · rename_i h
+      have hlt := UInt64.lt_iff_toNat_lt.1 h
+      have hle : bs ≤ o := UInt64.le_iff_toNat_le.2 (by omega)
+      have hs := UInt64.toNat_sub_of_le _ _ hle
+      have := ih (i + 1) (o - bs)
+      omega
+    · rename_i h
+      rw [UInt64.not_lt, UInt64.le_iff_toNat_le] at h
+      simp; omega
+
+theorem dataReadBlocks_safe (bs : UInt32) (words : Nat → UInt32) (blkOk : Nat → Bool) (blockCount cap : Nat)
+    (hcap : cap < 2 ^ 32) :
+    ∀ (rem i : Nat) (offset : UInt64) (size total : UInt32) (acc : List Access),
+      i + rem ≤ blockCount → (rem = 0 ∨ offset.toNat ≤ bs.toNat) → total.toNat + size.toNat ≤ cap →
+      (∀ a ∈ acc, a.inBounds) →
+      (∀ a ∈ (dataReadBlocks bs words blkOk blockCount cap rem i offset size total acc).2, a.inBounds) ∧
+      (∀ o s t, (dataReadBlocks bs words blkOk blockCount cap rem i offset size total acc).1 = .ok (o, s, t) →
+        t.toNat + s.toNat ≤ cap ∧ o.toNat ≤ offset.toNat) := by
+  intro rem
+  induction rem with
+  | zero =>
+    intro i o sz t acc _ _ hts hacc
+    simp only [dataReadBlocks]
+    refine ⟨hacc, ?_⟩
+    intro o' s' t' h
+    simp at h
+    obtain ⟨rfl, rfl, rfl⟩ := h
+    exact ⟨hts, Nat.le_refl _⟩
+  | succ rem ih =>
+    intro i o sz t acc hi hoff hts hacc
+    have ho : o.toNat ≤ bs.toNat := by rcases hoff with h | h; omega; exact h
+    unfold dataReadBlocks
+    split
+    · refine ⟨hacc, ?_⟩
+      intro o' s' t' h
+      simp at h
+      obtain ⟨rfl, rfl, rfl⟩ := h
+      exact ⟨hts, Nat.le_refl _⟩
+    · simp only []
+      have hle : o ≤ bs.toUInt64 := UInt64.le_iff_toNat_le.2 (by simpa using ho)
+      have hd0 : ((bs.toUInt64 - o).toUInt32).toNat = bs.toNat - o.toNat := by
+        rw [UInt64.toNat_toUInt32, UInt64.toNat_sub_of_le _ _ hle, UInt32.toNat_toUInt64]
+        apply Nat.mod_eq_of_lt
+        have := UInt32.toNat_lt bs
+        omega
+      have hmin : (if sz < (bs.toUInt64 - o).toUInt32 then sz else (bs.toUInt64 - o).toUInt32).toNat ≤ sz.toNat ∧
+          (if sz < (bs.toUInt64 - o).toUInt32 then sz else (bs.toUInt64 - o).toUInt32).toNat ≤ bs.toNat - o.toNat := by
+        split
+        · rename_i h; have := UInt32.lt_iff_toNat_lt.1 h; rw [hd0] at this; omega
+        · rename_i h; rw [UInt32.not_lt, UInt32.le_iff_toNat_le, hd0] at h; rw [hd0]; omega
+      generalize (if sz < (bs.toUInt64 - o).toUInt32 then sz else (bs.toUInt64 - o).toUInt32) = diff at hmin
+      have hdle : diff ≤ sz := UInt32.le_iff_toNat_le.2 hmin.1
+      have hsub : (sz - diff).toNat = sz.toNat - diff.toNat := UInt32.toNat_sub_of_le _ _ hdle
+      have hadd : (t + diff).toNat = t.toNat + diff.toNat := by
+        rw [UInt32.toNat_add]; apply Nat.mod_eq_of_lt; omega
+      have hino : (Access.mk .inoData (i * 4) 4 (blockCount * 4)).inBounds := by
+        simp only [Access.inBounds]; omega
+      have hz : (0 : UInt64).toNat = 0 := rfl
+      split
+      · have := ih (i + 1) 0 (sz - diff) (t + diff)
+          (acc ++ [Access.mk .inoData (i * 4) 4 (blockCount * 4)] ++ [Access.mk .dst t.toNat diff.toNat cap])
+          (by omega) (Or.inr (by rw [hz]; omega)) (by rw [hsub, hadd]; omega) (by
+            intro a ha
+            simp only [List.mem_append, List.mem_cons, List.mem_nil_iff, or_false] at ha
+            rcases ha with (ha | ha) | ha
+            · exact hacc a ha
+            · subst ha; exact hino
+            · subst ha; simp only [Access.inBounds]; omega)
+        refine ⟨this.1, ?_⟩
+        intro o' s' t' h
+        have := this.2 o' s' t' h
+        rw [hz] at this
+        omega
+      · split
+        · refine ⟨?_, by intro o' s' t' h; simp at h⟩
+          intro a ha
+          simp only [List.mem_append, List.mem_cons, List.mem_nil_iff, or_false] at ha
+          rcases ha with ha | ha
+          · exact hacc a ha
+          · subst ha; exact hino
+        · have := ih (i + 1) 0 (sz - diff) (t + diff)
+            (acc ++ [Access.mk .inoData (i * 4) 4 (blockCount * 4)] ++
+              [Access.mk .dataBlock o.toNat diff.toNat bs.toNat, Access.mk .dst t.toNat diff.toNat cap])
+            (by omega) (Or.inr (by rw [hz]; omega)) (by rw [hsub, hadd]; omega) (by
+              intro a ha
+              simp only [List.mem_append, List.mem_cons, List.mem_nil_iff, or_false] at ha
+              rcases ha with (ha | ha) | ha | ha
+              · exact hacc a ha
+              · subst ha; exact hino
+              · subst ha; simp only [Access.inBounds]; omega
+              · subst ha; simp only [Access.inBounds]; omega)
+          refine ⟨this.1, ?_⟩
+          intro o' s' t' h
+          have := this.2 o' s' t' h
+          rw [hz] at this
+          omega
+
+theorem dataRead_safe (bs : UInt32) (words : Nat → UInt32) (blkOk : Nat → Bool) (blockCount : Nat)
+    (filesz offset : UInt64) (size0 : UInt32) (fragOff : UInt32) (fragPre : Except Err UInt64)
+    (hfs : filesz.toNat + 2 ^ 32 ≤ 2 ^ 64) :
+    ∀ a ∈ (dataRead bs words blkOk blockCount filesz offset size0 fragOff fragPre).2, a.inBounds := by
+  unfold dataRead
+  simp only []
+  split
+  · simp
+  rename_i hoff
+  rw [UInt64.not_le, UInt64.lt_iff_toNat_lt] at hoff
+  have hclamp : (if size0 ≥ 0x7FFFFFFF then (0x7FFFFFFE : UInt32) else size0).toNat ≤ size0.toNat := by
+    split
+    · rename_i h; have := UInt32.le_iff_toNat_le.1 h
+      have e1 : (0x7FFFFFFF : UInt32).toNat = 2147483647 := rfl
+      have e2 : (0x7FFFFFFE : UInt32).toNat = 2147483646 := rfl
+      omega
+    · exact Nat.le_refl _
+  generalize (if size0 ≥ 0x7FFFFFFF then (0x7FFFFFFE : UInt32) else size0) = sz1 at hclamp
+  have hle : offset ≤ filesz := UInt64.le_iff_toNat_le.2 (by omega)
+  have hsz2 : (if filesz - offset < sz1.toUInt64 then (filesz - offset).toUInt32 else sz1).toNat ≤ sz1.toNat := by
+    split
+    · rename_i h
+      have := UInt64.lt_iff_toNat_lt.1 h
+      rw [UInt32.toNat_toUInt64] at this
+      rw [UInt64.toNat_toUInt32]
+      have h2 := Nat.mod_le (filesz - offset).toNat (2 ^ 32)
+      omega
+    · exact Nat.le_refl _
+  generalize (if filesz - offset < sz1.toUInt64 then (filesz - offset).toUInt32 else sz1) = sz at hsz2
+  split
+  · simp
+  have hskip := dataReadSkip_spec bs.toUInt64 blockCount 0 offset
+  generalize hq : dataReadSkip bs.toUInt64 blockCount 0 offset = q at hskip
+  obtain ⟨i, off1⟩ := q
+  simp only [] at hskip ⊢
+  obtain ⟨h1, _, h3, h4⟩ := hskip
+  have hcap := UInt32.toNat_lt size0
+  have hz : (0 : UInt32).toNat = 0 := rfl
+  have hb := dataReadBlocks_safe bs words blkOk blockCount size0.toNat hcap (blockCount - i) i off1 sz 0 []
+    (by omega) (by rcases h3 with h | h; right; simpa using h; left; omega) (by rw [hz]; omega) (by simp)
+  generalize hr : dataReadBlocks bs words blkOk blockCount size0.toNat (blockCount - i) i off1 sz 0 [] = r at hb
+  obtain ⟨res, acc⟩ := r
+  simp only [] at hb ⊢
+  cases res with
+  | error e => exact hb.1
+  | ok v =>
+    obtain ⟨o2, s2, t2⟩ := v
+    obtain ⟨hts, ho2⟩ := hb.2 o2 s2 t2 rfl
+    simp only []
+    split
+    · exact hb.1
+    · cases fragPre with
+      | error e => exact hb.1
+      | ok fbs =>
+        simp only []
+        have hsum : (fragOff.toUInt64 + o2).toNat = fragOff.toNat + o2.toNat := by
+          rw [UInt64.toNat_add, UInt32.toNat_toUInt64]
+          apply Nat.mod_eq_of_lt
+          have := UInt32.toNat_lt fragOff
+          omega
+        split
+        · exact hb.1
+        · rename_i hc1
+          rw [UInt64.not_le, UInt64.lt_iff_toNat_lt, hsum] at hc1
+          split
+          · exact hb.1
+          · rename_i hc2
+            have hle2 : fragOff.toUInt64 + o2 ≤ fbs := UInt64.le_iff_toNat_le.2 (by rw [hsum]; omega)
+            rw [UInt64.not_lt, UInt64.le_iff_toNat_le, UInt64.toNat_sub_of_le _ _ hle2, hsum, UInt32.toNat_toUInt64] at hc2
+            intro a ha
+            simp only [List.mem_append, List.mem_cons, List.mem_nil_iff, or_false] at ha
+            rcases ha with ha | ha | ha
+            · exact hb.1 a ha
+            · subst ha; simp only [Access.inBounds]; omega
+            · subst ha; simp only [Access.inBounds]; omega
+
 /-! ## read_table -/
 
 theorem readTableLoop_safe (total blockCount : Nat) (stepOk : Nat → Bool) :
